@@ -387,6 +387,9 @@ func (g *G) killedBetween(br Branch, k int, p Point) bool {
 		return false
 	}
 	start := Point{br.B.Succs[k], 0}
+	// an assignment only kills the fact when it can reach p without passing
+	// the branch edge again (passing it re-establishes the fact)
+	edge := func(b *cfg.Block, kk int) bool { return b == br.B && kk == k }
 	_, found := g.Reach(start, true, Query{
 		Target: func(q Point) bool {
 			if samePoint(q, p) {
@@ -396,10 +399,11 @@ func (g *G) killedBetween(br Branch, k int, p Point) bool {
 			if n == nil || !g.assignsAny(n, vars) {
 				return false
 			}
-			// the assignment must be able to reach p
-			return g.CanReach(q, p)
+			_, reaches := g.Reach(q, false, Query{Target: func(t Point) bool { return samePoint(t, p) }, CutEdge: edge})
+			return reaches
 		},
-		Cut: func(q Point) bool { return samePoint(q, p) },
+		Cut:     func(q Point) bool { return samePoint(q, p) },
+		CutEdge: edge,
 	})
 	return found
 }
